@@ -222,8 +222,23 @@ fit_spline_1d(std::ranges::sized_range auto && dt_r, std::ranges::sized_range au
     rhs.head(N_coef).setZero();
     rhs.tail(N_eq) = b;
 
+    // Symmetric equilibration H <- S H S (a few Ruiz sweeps): the Q blocks of neighbouring intervals
+    // differ by factors (dt_i / dt_j)^(2D - 1), which the pivoting alone does not compensate for.
+    Eigen::VectorXd S = Eigen::VectorXd::Ones(H.cols());
+    for (auto sweep = 0u; sweep != 4; ++sweep) {
+      Eigen::VectorXd s = Eigen::VectorXd::Zero(H.cols());
+      for (auto col = 0; col != H.outerSize(); ++col) {
+        for (typename decltype(H)::InnerIterator it(H, col); it; ++it) { s(col) = std::max(s(col), std::abs(it.value())); }
+      }
+      s = s.array().max(std::numeric_limits<double>::min()).sqrt().inverse();
+      for (auto col = 0; col != H.outerSize(); ++col) {
+        for (typename decltype(H)::InnerIterator it(H, col); it; ++it) { it.valueRef() *= s(it.row()) * s(col); }
+      }
+      S.array() *= s.array();
+    }
+
     const Eigen::SparseLU<decltype(H)> lu(H);
-    return lu.solve(rhs).head(N_coef);
+    return S.cwiseProduct(lu.solve(S.cwiseProduct(rhs))).head(N_coef);
   }
 }
 
